@@ -28,6 +28,7 @@ class ClassInfo(object):
     self.truthy_expr = d.get('truthy_expr', None)  # spec expression for bool(self) of an extern container-like class
     self.value_key = d.get('value_key', None)   # fields that define ==/hash: instances are dictionary keys by value
     self.static_fields = dict((k, parse_type(v)) for k, v in d.get('static_fields', {}).items())  # mutable class attributes (singletons)
+    self.maybe_attrs = dict(d.get('maybe_attrs', {}))   # attribute that instances may lack -> ghost bool field saying it exists (getattr/hasattr)
     self.final = d.get('final', False)       # no subclasses: dynamic class tag is known for every reference of this type
 
 
